@@ -188,6 +188,52 @@ func runRangeOp(o *Out, rg *Rng, ws []string) {
 	}
 	u := func(s string) uint64 { var v uint64; fmt.Sscan(s, &v); return v }
 	o.Op("%s", strings.Join(ws, " "))
+	if ws[0] == "twice" {
+		// the same method twice on the same range values, then the receiver observed again: the methods are queries,
+		// they must not change the range they are called on
+		inner := ws[1:]
+		_, r, _ := parse(inner[1])
+		var r2 *bstream.Range
+		if inner[0] == "isnext" {
+			_, r2, _ = parse(inner[2])
+		}
+		res := guarded(o, func() string {
+			do := func() string {
+				switch inner[0] {
+				case "contains":
+					return fmt.Sprint(r.Contains(u(inner[2])))
+				case "reached":
+					return fmt.Sprint(r.ReachedEndBlock(u(inner[2])))
+				case "next":
+					return tokOf(r.Next(u(inner[2])))
+				case "previous":
+					return tokOf(r.Previous(u(inner[2])))
+				case "isnext":
+					return fmt.Sprint(r.IsNext(r2, u(inner[3])))
+				case "split":
+					cs, err := r.Split(u(inner[2]))
+					if err != nil {
+						return "open"
+					}
+					var parts []string
+					for _, c := range cs {
+						parts = append(parts, tokOf(c))
+					}
+					return "ok:" + strings.Join(parts, ";")
+				}
+				return "bad-op"
+			}
+			a := do()
+			b := do()
+			out := a + " " + b + " recv=" + tokOf(r)
+			if r2 != nil {
+				out += " arg=" + tokOf(r2)
+			}
+			return out
+		})
+		o.Impl("%s", res)
+		return
+	}
 	res := guarded(o, func() string {
 		switch ws[0] {
 		case "contains":
@@ -280,6 +326,17 @@ func genParseInput(r *Rng) []byte {
 	}
 }
 
+// maybeTwice wraps a query on a range into the "twice" form in a quarter of the cases
+func maybeTwice(r *Rng, ws []string) []string {
+	switch ws[0] {
+	case "contains", "reached", "next", "previous", "isnext", "split":
+		if r.Intn(4) == 0 {
+			return append([]string{"twice"}, ws...)
+		}
+	}
+	return ws
+}
+
 func suiteRange(o *Out, r *Rng, n int, tier string) {
 	for i := 0; i < n; i++ {
 		o.Case("range")
@@ -306,16 +363,16 @@ func suiteRange(o *Out, r *Rng, n int, tier string) {
 			switch kind {
 			case 0, 1:
 				o.Stat("range.op.contains", 1)
-				runRangeOp(o, r, []string{"contains", g.tok(), fmt.Sprint(pt())})
+				runRangeOp(o, r, maybeTwice(r, []string{"contains", g.tok(), fmt.Sprint(pt())}))
 			case 2:
 				o.Stat("range.op.reached", 1)
-				runRangeOp(o, r, []string{"reached", g.tok(), fmt.Sprint(pt())})
+				runRangeOp(o, r, maybeTwice(r, []string{"reached", g.tok(), fmt.Sprint(pt())}))
 			case 3:
 				o.Stat("range.op.next", 1)
-				runRangeOp(o, r, []string{"next", g.tok(), fmt.Sprint(genChunk(r, g))})
+				runRangeOp(o, r, maybeTwice(r, []string{"next", g.tok(), fmt.Sprint(genChunk(r, g))}))
 			case 4:
 				o.Stat("range.op.previous", 1)
-				runRangeOp(o, r, []string{"previous", g.tok(), fmt.Sprint(genChunk(r, g))})
+				runRangeOp(o, r, maybeTwice(r, []string{"previous", g.tok(), fmt.Sprint(genChunk(r, g))}))
 			case 5:
 				o.Stat("range.op.isnext", 1)
 				sz := genChunk(r, g)
@@ -333,10 +390,10 @@ func suiteRange(o *Out, r *Rng, n int, tier string) {
 					o.Stat("range.unbuildable", 1)
 					continue
 				}
-				runRangeOp(o, r, []string{"isnext", g.tok(), g2.tok(), fmt.Sprint(sz)})
+				runRangeOp(o, r, maybeTwice(r, []string{"isnext", g.tok(), g2.tok(), fmt.Sprint(sz)}))
 			case 6:
 				o.Stat("range.op.size", 1)
-				runRangeOp(o, r, []string{"size", g.tok()})
+				runRangeOp(o, r, maybeTwice(r, []string{"size", g.tok()}))
 			case 7, 8, 9:
 				c := genChunk(r, g)
 				if c == 0 {
@@ -353,7 +410,7 @@ func suiteRange(o *Out, r *Rng, n int, tier string) {
 				if g.end != nil && *g.end > ^uint64(0)-1000 {
 					o.Stat("range.split.near_max", 1)
 				}
-				runRangeOp(o, r, []string{"split", g.tok(), fmt.Sprint(c)})
+				runRangeOp(o, r, maybeTwice(r, []string{"split", g.tok(), fmt.Sprint(c)}))
 			case 10, 11:
 				o.Stat("range.op.parse", 1)
 				in := genParseInput(r)
@@ -361,7 +418,7 @@ func suiteRange(o *Out, r *Rng, n int, tier string) {
 				if len(in) > 0 {
 					h = hex.EncodeToString(in)
 				}
-				runRangeOp(o, r, []string{"parse", h})
+				runRangeOp(o, r, maybeTwice(r, []string{"parse", h}))
 			case 12:
 				o.Stat("range.op.containing", 1)
 				sz := genChunk(r, g)
@@ -369,7 +426,7 @@ func suiteRange(o *Out, r *Rng, n int, tier string) {
 				if sz != 0 && (n-n%sz)+sz <= n-n%sz { // constructor panics by contract on wrap; skip
 					continue
 				}
-				runRangeOp(o, r, []string{"containing", fmt.Sprint(n), fmt.Sprint(sz)})
+				runRangeOp(o, r, maybeTwice(r, []string{"containing", fmt.Sprint(n), fmt.Sprint(sz)}))
 			default:
 				continue
 			}
